@@ -292,7 +292,9 @@ def apply_time_range_vevent(start, end, comp, tzify):
 def apply_time_range_vjournal(start, end, comp, tzify):
     dtstart = comp.get("DTSTART")
     if not dtstart:
-        raise MissingProperty("DTSTART")
+        # DTSTART is optional on a VJOURNAL; RFC 4791 section 9.9 says such a
+        # journal entry matches no time range.
+        return False
 
     if not (end > tzify(dtstart.dt)):
         return False
